@@ -606,3 +606,24 @@ pub fn t057() -> (usize, bool, Option<u8>, u8, f64, f64, f64, f64) {
     let k: Result<u8, String> = Ok(4);
     (a, two.is_err(), r.clone().ok(), k.map(|x| x + 1).unwrap_or(0) + r.unwrap_or(9), (1.5f64).clamp(0.0, 1.0), (-0.5f64).clamp(0.0, 1.0), (0.25f64).min(0.5), (0.25f64).max(0.5))
 }
+pub fn t058() -> (Vec<(usize, usize)>, usize) {
+    use std::collections::HashMap;
+    let mut qs: HashMap<usize, usize> = HashMap::new();
+    for q in 0..4 {
+        qs.insert(q, q);
+    }
+    let i = 1;
+    qs.remove(&1);
+    for idx in qs.values_mut().filter(|idx| **idx > i) {
+        *idx -= 1;
+    }
+    for (_, v) in qs.iter_mut() {
+        if *v == 0 {
+            *v += 10;
+        }
+    }
+    let mut out: Vec<(usize, usize)> = qs.iter().map(|(k, v)| (*k, *v)).collect();
+    out.sort();
+    let total = qs.values().sum();
+    (out, total)
+}
